@@ -1286,6 +1286,7 @@ fn rich(c: &mut Cfg) {
     c.sub_counts = vec![1, 3];
     c.big_connect = true;
     c.io.all_partials_upto = 4;
+    c.payload_kinds = vec![0, 1];
 }
 
 /// An inbound publish with the RETAIN flag, a longer topic and several properties.
